@@ -172,6 +172,10 @@ class Model:
         elif a == "down":
             self.clamp()
             self.vmove(-1)
+        elif a in ("offset-up", "offset-down"):
+            # only used when every result fits in the window: the view cannot scroll, so the cursor moves instead - without wrapping
+            self.clamp()
+            self.vmove(1 if a == "offset-up" else -1, allow_cycle=False)
         elif a == "first":
             self.cy = 0
         elif a == "last":
@@ -268,4 +272,5 @@ EDIT = ["put(a)", "put(b)", "put( )", "backward-char", "forward-char", "beginnin
         "backward-delete-char", "delete-char", "kill-line", "unix-line-discard", "unix-word-rubout", "backward-kill-word",
         "kill-word", "yank", "backward-word", "forward-word", "clear-query", "change-query(a b)"]
 NAV = ["up", "down", "first", "last", "pos(2)", "pos(-1)", "page-up", "page-down", "half-page-up", "half-page-down"]
+NAV_FIT = ["offset-up", "offset-down"]  # modelled only when all results fit in the window
 SEL = ["toggle", "toggle-up", "toggle-down", "select", "deselect", "select-all", "deselect-all", "toggle-all", "clear-selection"]
